@@ -1339,8 +1339,11 @@ asn1constraint_compute_constraint_range(
 	 * A reversed range, (10..1), would trip the assertions down the road.
 	 * (A multi-character FROM("abc") string fills range->elements instead
 	 * and has its edges recomputed by _range_canonicalize().)
+	 * MIN and MAX stand for the bounds of the parent type: (7..MAX) on a
+	 * parent (0..5) denotes the empty set and is handled as such later.
 	 */
 	if(range->el_count == 0
+	&& vmin->type != ATV_MIN && vmax->type != ATV_MAX
 	&& _edge_compare(&range->left, &range->right) > 0) {
 		FATAL("Lower bound is greater than the upper bound "
 			"in %s at line %d",
